@@ -3,6 +3,7 @@
 -/
 import Jawk.Model.Run
 import Jawk.Lemmas.PM
+import Jawk.Lemmas.RunSpec
 namespace Jawk.C06
 open Jawk Reader
 
@@ -83,5 +84,53 @@ theorem value_step_policy_independent (orc : Oracles) (c c' : Cfg) (p : Pipeline
 /-- non-vacuity: `}` `]` `,` `:` `.` `e` `E` `+` and bytes ≥ 0x80 are garbage; digits and `"` are not -/
 example : Garbage 125 ∧ Garbage 93 ∧ Garbage 44 ∧ Garbage 58 ∧ Garbage 46 ∧ Garbage 101 ∧ Garbage 69 ∧
     Garbage 43 ∧ Garbage 0xff ∧ Garbage 0xc3 ∧ ¬ Garbage 49 ∧ ¬ Garbage 34 ∧ ¬ Garbage 32 := by decide
+
+
+/-! ### the policies, for whole runs (every configuration that builds, every input, malformed or not)
+
+`ctxsOfSources c sources 0` = the values the loop reads, malformed regions skipped; `errsOfSources …` = the
+recoverable errors it meets before it stops.  Under the three non-fatal policies the ROWS are the same function
+of the input; only where the reports go differs. -/
+
+/-- `ignore`: rows only, nothing on standard error -/
+theorem policy_ignore (orc : Oracles) (c : Cfg) (sources : List Source) (wOut wErr : Writer) (p : Pipeline)
+    (hpol : c.onError = .ignore) (hb : build orc c = .ok p) (hna : Pipe.NoAbort orc p.cfgs) (hw : Pipe.Unbounded wOut)
+    (hcl : RunSpec.CleanIO sources) (hh : ¬ RunSpec.HeaderMissing p) :
+    (run orc c sources wOut wErr).result = .ok ()
+      ∧ (run orc c sources wOut wErr).stdout
+          = wOut.out ++ RunSpec.headerBytes p ++
+            (Pipe.specRows (Pipe.evalT orc) p.cfgs p.sts (RunSpec.ctxsOfSources c sources 0)).flatMap
+              (Pipe.sinkBytes p.sink p.sinkLen)
+      ∧ (run orc c sources wOut wErr).stderr = wErr.out :=
+  RunSpec.run_ignore_spec orc c sources wOut wErr p hpol hb hna hw hcl hh
+
+/-- `stderr`: standard output is byte for byte what `ignore` writes; standard error receives exactly one
+`error:` report per recoverable error, in order, and nothing else -/
+theorem policy_stderr (orc : Oracles) (c : Cfg) (sources : List Source) (wOut wErr : Writer) (p : Pipeline)
+    (hpol : c.onError = .stderr) (hb : build orc c = .ok p) (hna : Pipe.NoAbort orc p.cfgs) (hw : Pipe.Unbounded wOut)
+    (he : Pipe.Unbounded wErr) (hcl : RunSpec.CleanIO sources) (hh : ¬ RunSpec.HeaderMissing p) :
+    (run orc c sources wOut wErr).result = .ok ()
+      ∧ (run orc c sources wOut wErr).stdout
+          = wOut.out ++ RunSpec.headerBytes p ++
+            (Pipe.specRows (Pipe.evalT orc) p.cfgs p.sts (RunSpec.ctxsOfSources c sources 0)).flatMap
+              (Pipe.sinkBytes p.sink p.sinkLen)
+      ∧ (run orc c sources wOut wErr).stderr
+          = wErr.out ++ (RunSpec.errsOfSources (Pipe.evalT orc) c p.cfgs sources 0 p.sts).flatMap reportBytes :=
+  RunSpec.policy_stderr_same_rows orc c sources wOut wErr p hpol hb hna hw he hcl hh
+
+/-- `stdout`: standard output is the `ignore` output with the reports interleaved (removing the report chunks
+gives the `ignore` output exactly); standard error receives nothing -/
+theorem policy_stdout (orc : Oracles) (c : Cfg) (sources : List Source) (wOut wErr : Writer) (p : Pipeline)
+    (hpol : c.onError = .stdout) (hb : build orc c = .ok p) (hna : Pipe.NoAbort orc p.cfgs) (hw : Pipe.Unbounded wOut)
+    (hcl : RunSpec.CleanIO sources) (hh : ¬ RunSpec.HeaderMissing p) :
+    ∃ ch : RunSpec.Chunks,
+      (run orc c sources wOut wErr).result = .ok ()
+      ∧ (run orc c sources wOut wErr).stdout = wOut.out ++ RunSpec.headerBytes p ++ ch.bytes
+      ∧ ch.rowPart
+          = (Pipe.specRows (Pipe.evalT orc) p.cfgs p.sts (RunSpec.ctxsOfSources c sources 0)).flatMap
+              (Pipe.sinkBytes p.sink p.sinkLen)
+      ∧ ch.reports = (RunSpec.errsOfSources (Pipe.evalT orc) c p.cfgs sources 0 p.sts).map reportBytes
+      ∧ (run orc c sources wOut wErr).stderr = wErr.out :=
+  RunSpec.policy_stdout orc c sources wOut wErr p hpol hb hna hw hcl hh
 
 end Jawk.C06
